@@ -1595,7 +1595,12 @@ class TaskPool:
             # can't be complete
             return False
 
-        if itask.identity == self.stop_task_id:
+        if (
+            itask.identity == self.stop_task_id
+            and itask.state(TASK_STATUS_SUCCEEDED)
+        ):
+            # (the stop task is documented as "stop after the task has
+            # succeeded", not failed / submit-failed / expired)
             self.stop_task_finished = True
 
         if cylc.flow.flags.cylc7_back_compat:
